@@ -87,6 +87,7 @@ def run(ck):
     ck.lean_obligations("IgVerif.Props.C16", THEOREMS, PARTIAL)
     ck.trusted += ["tools/props/c16.py realise(): databases that make interrogate_module see a given dependency graph; the parser of the emitted module file",
                    "the `collect` step (deriving the graph from the loaded databases) is not modelled: the intended graph is handed to the model"]
+    ck.trusted += ["Model/ModuleOrder.lean is a hand-written model of the ordering loop and find_dependency_cycle, tied to the code by the graph stream only"]
     bdir = iglib.build_repo("std")
     lay = dbgen.Layouts()
     wd = workdir(ck)
